@@ -407,6 +407,10 @@ def wrapper_discipline(C, R, cfg, state_adts, rule):
             if callers and all(c in state_fn_adt for c in callers):
                 state_fn_adt[fn['path']] = state_fn_adt[callers[0]]
                 changed = True
+    # closures inside state-layer functions are part of them
+    for fn in F.raw['fns']:
+        if fn['kind'] == 'closure' and CG.root_fn(fn['path']) in state_fn_adt:
+            state_fn_adt[fn['path']] = state_fn_adt[CG.root_fn(fn['path'])]
     # one lock acquisition per public operation: a decision taken under one acquisition and acted upon under the
     # next is a check-then-act race for every other task (whether or not the first acquisition mutates anything)
     mods = set(sp.rsplit('::', 1)[0] + '::' for sp in state_adts)
@@ -433,21 +437,22 @@ def wrapper_discipline(C, R, cfg, state_adts, rule):
                 # tell, so the verdict is "not judged", never "fine"
                 double_lock.append('%s (%d acquisitions of the same lock on one path)' % (fn['path'], cnt[twice[0]]))
             break
+    not_thin = []    # (fn, names, message, loc, extra): reported at the innermost function that shows the compound
     for fn in F.raw['fns']:
         if fn['path'] in state_fn_adt or fn['kind'] == 'closure':
             continue
-        if not any(b['term']['k'] == 'call' and 'fn' in b['term']['func'] and
-                   b['term']['func']['fn']['path'].startswith('lock_api::') and
-                   b['term']['func']['fn']['name'] == 'lock' for b in fn['blocks'] if not b['cleanup']):
+        if not any(fn['path'].lstrip('<').startswith(m_) for m_ in mods):
             continue
-        paths = None
         for path in E.run(fn['path']):
             if path.exit != 'return':
                 continue
             own_frame = path.events[0]['frame'] if path.events else None
-            locks = [e for e in path.events if e['k'] == 'lock' and e['frame'] == own_frame]
+            # lock acquisitions and state calls made by this function or by the (non-state) helpers it calls
+            locks = [e for e in path.events if e['k'] == 'lock' and e.get('fn') not in state_fn_adt]
             calls = [e for e in path.events if e['k'] == 'call' and e.get('mode') == 'inline'
-                     and e['callee'] in state_fn_adt and e['frame'] == own_frame]
+                     and e['callee'] in state_fn_adt and e.get('fn') not in state_fn_adt
+                     and (e.get('argtys') or [''])[0].startswith('&')     # a method on a state, not its constructor
+                     and state_fn_adt[e['callee']].split('::')[-1] in (e.get('argtys') or [''])[0]]
             if not calls and not locks:
                 continue
             if not calls:
@@ -459,24 +464,25 @@ def wrapper_discipline(C, R, cfg, state_adts, rule):
             mut = []
             seen_region = None
             for ev2 in path.events:
-                if ev2['k'] == 'lock' and ev2['frame'] == own_frame:
+                if ev2['k'] == 'lock' and ev2.get('fn') not in state_fn_adt:
                     seen_region = ev2
                 elif ev2 in calls and (ev2.get('argtys') or [''])[0].startswith('&mut'):
-                    if mut and mut[-1][0] is seen_region and seen_region is not None and fn['path'] in F.alias_fns:
+                    if mut and mut[-1][0] is seen_region and seen_region is not None and \
+                            (fn['path'] in F.alias_fns or ev2.get('fn') in F.alias_fns):
                         continue
                     mut.append((seen_region, ev2))
             mut = [c for _r, c in mut]
             names = sorted(c['callee'].split('::')[-1] for c in mut)
             combo_ok = len(mut) <= 1 or (fn.get('impl_adt'), tuple(names)) in ALLOWED_COMBOS
             if not combo_ok or len(locks) == 0:
-                R.fail(rule, [fn['path'], 'wrapper-not-thin', '+'.join(names)],
+                not_thin.append((fn, names,
                        '%s performs %d state transitions (%s) on one path: a public operation maps to exactly one '
                        'transition of the primitive (listed exceptions: %s) [%s]' % (
                            fn['path'], len(mut), ', '.join(names),
                            '; '.join('%s: %s' % (k[0].split('::')[-1], '+'.join(k[1])) for k in ALLOWED_COMBOS), pc),
-                       '%s:%s' % (fn['file'], fn['line']), {'trace': trace_summary(path)})
+                       '%s:%s' % (fn['file'], fn['line']), {'trace': trace_summary(path)}))
                 continue
-            bad = [(c, a) for c in calls for a in c['args'][1:] if not _plain_arg(a)]
+            bad = [(c, a) for c in calls if c['frame'] == own_frame for a in c['args'][1:] if not _plain_arg(a)]
             if bad:
                 c, a = bad[0]
                 from engine import fmt_val as _fv
@@ -485,6 +491,15 @@ def wrapper_discipline(C, R, cfg, state_adts, rule):
                            fn['path'], _fv(a), c['callee']), where(F, c), {'trace': trace_summary(path)})
             else:
                 R.ok(rule, '%s|one transition per lock, arguments unchanged|%s' % (fn['path'], pc))
+    bad_fns = {}
+    for fn, names, msg, loc, extra in not_thin:
+        bad_fns.setdefault(fn['path'], []).append((fn, names, msg, loc, extra))
+    for p_, lst in sorted(bad_fns.items()):
+        inner = CG.reachable_from([p_]) - {p_}
+        if any(q in bad_fns and any(sorted(n2) == sorted(lst[0][1]) for _f, n2, _m, _l, _x in bad_fns[q]) for q in inner):
+            continue    # the function it calls shows the same compound: reported there
+        for fn, names, msg, loc, extra in lst:
+            R.fail(rule, [fn['path'], 'wrapper-not-thin', '+'.join(names)], msg, loc, extra)
     reported = set(v['key'].split('|')[1] for v in R.violations if v['key'].startswith(rule + '|') and 'wrapper-not-thin' in v['key'])
     pending = [d for d in double_lock if d.split(' (')[0] not in reported]
     if pending:
